@@ -38,6 +38,7 @@ type inputlookupProcessor struct {
 	options      *structs.InputLookup
 	eof          bool
 	qid          uint64
+	orgid        int64 // the lookup files of this org are read
 	start        uint64
 	numprocessed uint64
 	limit        uint64
@@ -105,7 +106,7 @@ func (p *inputlookupProcessor) Process(inpIqr *iqr.IQR) (*iqr.IQR, error) {
 		return nil, fmt.Errorf("inputlookupProcessor.Process: Invalid lookup file name: %v", filename)
 	}
 
-	filePath := filepath.Join(config.GetLookupPath(), filename)
+	filePath := filepath.Join(config.GetLookupPathForOrg(p.orgid), filename)
 
 	fd, err := os.Open(filePath)
 	if err != nil {
